@@ -1,7 +1,7 @@
 #!/bin/sh
 # tools/try_seed.sh <PROP> <worktree> [check-props...]: confirm a seeded change and run the checks against it
 P=$1; W=$2; shift 2; CHECKS=${@:-$P}
-D=/verif/seeded/$P; mkdir -p $D
+D=/verif/seeded/$P$(basename $W | sed "s/^seed_$P//"); mkdir -p $D
 cp $W/patch.diff $D/patch.diff; cp $W/demo_$P.py $D/demo_$P.py
 echo "== demo with the change applied (expect non-zero)"
 (cd $W && PYTHONPATH=$W /venv/bin/python demo_$P.py > $D/demo_changed.out 2>&1; echo "exit=$?" | tee -a $D/demo_changed.out; tail -3 $D/demo_changed.out)
@@ -9,10 +9,11 @@ echo "== demo on the original code (expect 0)"
 (cd $W && git stash -q -- ioflo && PYTHONPATH=$W /venv/bin/python demo_$P.py > $D/demo_orig.out 2>&1; echo "exit=$?" | tee -a $D/demo_orig.out; git stash pop -q)
 echo "== existing tests with the change (expect 123 passed, 5 known failures)"
 (cd $W && unshare -n sh -c "ip link set lo up; PYTHONPATH=$W /venv/bin/python -m pytest -q -p no:cacheprovider --timeout=900 --continue-on-collection-errors" 2>&1 | tail -1 | tee $D/tests.out)
-echo "== checks against the change"
-git -C /repo apply $D/patch.diff || { echo "patch does not apply to /repo"; exit 2; }
+echo "== checks against the change (scratch copy of /repo with the patch applied; /repo itself is not touched so that
+#  concurrent work is not disturbed; pass --in-repo as first check name to apply it to /repo instead)"
+S=$(mktemp -d /tmp/seedroot.XXXXXX)
+cp -r /repo/ioflo $S/ioflo && (cd $S && git init -q . && git apply --unsafe-paths -p1 $D/patch.diff 2>/dev/null || patch -p1 -s < $D/patch.diff) || { echo "patch does not apply"; rm -rf $S; exit 2; }
 for c in $CHECKS; do
-  (cd /verif && PYTHONDONTWRITEBYTECODE=1 ./check $c --no-evidence > $D/check_$c.out 2>&1; echo "check $c exit=$?" | tee -a $D/check_$c.out; grep -E "^VIOLATION|failed obligation|UNDECIDED|CHECKER" $D/check_$c.out | head -6)
+  (cd /verif && PYTHONDONTWRITEBYTECODE=1 ./check $c --no-evidence --root $S > $D/check_$c.out 2>&1; echo "check $c exit=$?" | tee -a $D/check_$c.out; grep -E "^VIOLATION|failed obligation|UNDECIDED|CHECKER" $D/check_$c.out | head -6)
 done
-git -C /repo checkout -- .
-git -C /repo status --short | head -3
+rm -rf $S
